@@ -22,7 +22,33 @@ type c16Case struct {
 	want  map[string]int // marker -> expected count
 }
 
+// many DISTINCT v-once elements in one render (however the set of rendered ids is kept, it must not care how many there are): n elements in a
+// loop body, in one file and as n components included per iteration
+func c16Many() []c16Case {
+	var out []c16Case
+	for _, n := range []int{4, 5, 6, 9, 17, 40} {
+		want := map[string]int{}
+		var body, incs strings.Builder
+		files := map[string]string{}
+		for i := 1; i <= n; i++ {
+			m := fmt.Sprintf("Q%02d;", i)
+			want[m] = 1
+			fmt.Fprintf(&body, `<i v-once>%s</i>`, m)
+			fmt.Fprintf(&incs, `<template include="c%d.vuego"></template>`, i)
+			files[fmt.Sprintf("c%d.vuego", i)] = `<style v-once>` + m + `</style><b>x</b>`
+		}
+		out = append(out, c16Case{fmt.Sprintf("many-one-file-%d", n), map[string]string{"p.vuego": `<div v-for="x in items">` + body.String() + `</div>`}, "p.vuego", want})
+		files["p.vuego"] = `<div v-for="x in items">` + incs.String() + `</div>` + incs.String()
+		out = append(out, c16Case{fmt.Sprintf("many-components-%d", n), files, "p.vuego", want})
+	}
+	return out
+}
+
 func c16Cases() []c16Case {
+	return append(c16Fixed(), c16Many()...)
+}
+
+func c16Fixed() []c16Case {
 	items := `{"items":[1,2,3]}`
 	_ = items
 	return []c16Case{
